@@ -25,7 +25,10 @@ PER_CHUNK = 60
 def plan(tier, seed):
     n = 3000 if tier == "quick" else 60000
     budget = 20000 if tier == "quick" else 200000
-    return [{"seed": seed, "chunk": i, "n": PER_CHUNK, "budget": budget} for i in range(n // PER_CHUNK)]
+    specs = [{"seed": seed, "chunk": i, "n": PER_CHUNK, "budget": budget} for i in range(n // PER_CHUNK)]
+    # jumps over more than 2^15 / 2^16 instructions (few: each program has ~50k instructions)
+    specs += [{"seed": seed, "chunk": 900000 + i, "n": 0, "budget": 400000, "long": i} for i in range(5 if tier == "quick" else 15)]
+    return specs
 
 
 def make_source(r, variant):
@@ -134,6 +137,10 @@ def prepare(spec):
     """generate sources, run the reference, build driver cases"""
     r = common.rng(spec["seed"], "C01", spec["chunk"])
     items = []
+    if "long" in spec:
+        srcs = programs.long_distance_sources(r)
+        text, kind = srcs[spec["long"] % len(srcs)]
+        return [build_item({"main": text}, "main", spec["budget"], "long-distance-jumps")]
     for k in range(spec["n"]):
         variant = VARIANTS[(spec["chunk"] * spec["n"] + k) % len(VARIANTS)]
         files, main, tags = make_source(r, variant)
